@@ -1,3 +1,4 @@
+import KpModel.Db.MergeTerm
 import KpModel.Db.MergeLemmas
 import KpModel.Db.MergeSpec
 /-!
@@ -49,5 +50,36 @@ theorem relocate_events (s s' : St) (u : Nat) (fromP toP : List Nat) (ts : Int)
 def C16_full (WellFormedPair : Db → Db → Prop) : Prop :=
   ∀ (now : Int) (a b : Db), WellFormedPair a b →
     ∃ r evs, merge now a b = .ok (r, evs) ∧ Kp.MergeSpec.c16Clauses a b r = []
+
+/-! ### termination of the deletion work queue -/
+
+/-- **C16 (the work queue of `merge_deletions` terminates)**: on a destination tree that is a group with pairwise
+    distinct UUIDs, for every source database, pass 1 and the re-queueing loop of pass 2 never run out of the fuel
+    `(queue length + 1)² + 1`: every tombstone is resolved after finitely many rotations of the queue -/
+theorem mergeDeletions_terminates (now : Int) (dstTombs : List Tomb) (s : St) (src : Db)
+    (hr : s.root.isGroup = true) (hn : (uuidsL s.root.children).Nodup) :
+    mergeDeletions now dstTombs s src ≠ .error .outOfFuel := by
+  unfold mergeDeletions
+  obtain ⟨hne, hinv⟩ := deleteEntries_inv now src.tombs s dstTombs hr hn
+  cases he : deleteEntries now s dstTombs src.tombs with
+  | error e =>
+    simp only [bind, Except.bind]
+    intro h
+    simp only [Except.error.injEq] at h
+    subst h
+    exact hne he
+  | ok r =>
+    obtain ⟨s', nt'⟩ := r
+    simp only [bind, Except.bind]
+    obtain ⟨hr', hn'⟩ := hinv s' nt' he
+    exact deleteGroups_enough now _ _ s' nt' _ rfl hr' hn' (fuelFor_le _)
+
+
+/-- the hypotheses are satisfiable (non-vacuity): three nested groups below the root -/
+example : (Node.group 1 0 ⟨some 5, none, 0⟩ [.group 2 0 ⟨some 5, none, 0⟩ [.group 3 0 ⟨some 5, none, 0⟩
+      [.group 4 0 ⟨some 5, none, 0⟩ []]]]).isGroup = true
+    ∧ (uuidsL (Node.children (.group 1 0 ⟨some 5, none, 0⟩ [.group 2 0 ⟨some 5, none, 0⟩ [.group 3 0 ⟨some 5, none, 0⟩
+      [.group 4 0 ⟨some 5, none, 0⟩ []]]]))).Nodup := by
+  decide
 
 end Kp.Merge
